@@ -4,5 +4,6 @@ TUS = router.TUS + ['witness/w_observer.cpp']
 def run(facts, rep, tier):
     a = router.analyse(facts, rep, 'C13')
     observer.emit(facts, rep, ['SH.1', 'SH.2', 'SH.3', 'SH.4'], {'SH.1': 2, 'SH.2': 6, 'SH.3': 5, 'SH.4': 6}, text=router.RULE_TEXT, res=a.res)
-    observer.emit(facts, rep, ['SH.5'], {'SH.5': 7})
+    # SH.5 reads emptiness of m_observers as "no live subscription": that needs the list and the id set to change together (SUB.6)
+    observer.emit(facts, rep, ['SH.5', 'SUB.6'], {'SH.5': 7, 'SUB.6': 14})
     rep.assume('SH.1+SH.2: only nodes with no live subscription at or below are removed, so deliveries are unchanged (argument in DESIGN §4 C13)')
